@@ -53,6 +53,9 @@ type Config struct {
 	Curve          string `json:"curve"`
 	PlanSeed       uint64 `json:"plan_seed"`
 	RejectPerMille int    `json:"reject_per_mille"`
+	// AcceptOneIn > 0 replaces the rate: the predicate accepts one candidate in that many (10^4, 10^5): tens of thousands
+	// of consecutive retries per key, the "large fraction" of the property taken seriously. Few operations per run.
+	AcceptOneIn int `json:"accept_one_in,omitempty"`
 	Warp           bool   `json:"warp,omitempty"`         // the pluggable curve maps candidates to scalars at the edges of the valid range (elliptic curves only)
 	WrapInvalid    bool   `json:"wrap_invalid,omitempty"` // retryable faults are returned as an error wrapping ErrInvalidKey
 	Ops            []Op   `json:"ops"`
@@ -95,7 +98,7 @@ type world struct {
 }
 
 func (w *world) reject(cand []byte) bool {
-	if w.cfg.RejectPerMille == 0 {
+	if w.cfg.RejectPerMille == 0 && w.cfg.AcceptOneIn == 0 {
 		return false
 	}
 	h := w.cfg.PlanSeed
@@ -105,6 +108,9 @@ func (w *world) reject(cand []byte) bool {
 			v = v<<8 | uint64(cand[i+j])
 		}
 		h = kernel.SplitMix64(h ^ v)
+	}
+	if w.cfg.AcceptOneIn > 0 {
+		return h%uint64(w.cfg.AcceptOneIn) != 0
 	}
 	return int(h%1000) < w.cfg.RejectPerMille
 }
@@ -212,7 +218,13 @@ func (w *world) warp(kind string, il []byte, parent *big.Int, parentPub []byte) 
 // operation is declared stuck. (A fixed bound per operation was wrong for very deep paths at a 99 % rejection rate.)
 // Where the specification stops at an undefined derivation and the implementation (wrongly, and reported as such) goes
 // on deriving, the rest of the path is not covered by the reference's count: 4000 calls per remaining step on top.
-func (w *world) callLimit() int { return 4*w.specCalls + 1000 + 4000*w.extraSteps }
+func (w *world) callLimit() int {
+	perStep := 4000
+	if w.cfg.AcceptOneIn > 0 {
+		perStep = 40 * w.cfg.AcceptOneIn // the same margin for a curve that accepts one candidate in AcceptOneIn
+	}
+	return 4*w.specCalls + 1000 + perStep*w.extraSteps
+}
 
 func (w *world) decide(cand []byte) error {
 	if w.permFired {
@@ -429,6 +441,10 @@ func Run(cfg *Config) proto.End {
 	r.res.Nontriv = r.w.totalRej > 0 || r.w.totalPerm > 0 || r.w.warped > 0
 	r.res.Tags["curve"] = cfg.Curve
 	r.res.Tags["reject_per_mille"] = fmt.Sprint(cfg.RejectPerMille)
+	if cfg.AcceptOneIn > 0 {
+		r.res.Tags["reject_per_mille"] = fmt.Sprintf("all but 1 in %d", cfg.AcceptOneIn)
+		r.res.Probes["tens_of_thousands_of_consecutive_retries"] = 1
+	}
 	r.res.Tags["invalid_key_wrapped"] = fmt.Sprint(cfg.WrapInvalid)
 	r.res.Tags["candidate_mapping"] = fmt.Sprint(cfg.Warp)
 	if r.w.warped > 0 {
@@ -913,6 +929,25 @@ func Gen(seed uint64, tier string) *Config {
 	}
 	for i := range c.Ops {
 		c.Ops[i].Observe = pickS(r, "", "", "neuter-first", "lazy", "lazy")
+	}
+	if x := r.IntN(1500); x < 11 {
+		// a curve that accepts hardly anything: 10 000 or (rarely) 100 000 candidates per key on average
+		c.AcceptOneIn, c.Warp = 10000, false
+		keep := 2 + r.IntN(4)
+		if x == 0 {
+			c.AcceptOneIn, keep = 100000, 2
+		}
+		var ops []Op
+		for _, o := range c.Ops {
+			if len(o.Path) > 3 {
+				o.Path = o.Path[:3]
+			}
+			o.PermAt, o.OverlapAt = 0, 0
+			if len(ops) < keep && o.Kind != "import" {
+				ops = append(ops, o)
+			}
+		}
+		c.Ops = ops
 	}
 	return c
 }
